@@ -477,7 +477,7 @@ class DoIPConnection:
         self.protocol_version = protocol_version
         self.separate_diagnostic_message_queue = separate_diagnostic_message_queue
         self._diagnostic_message_queue: asyncio.Queue[DoIPDiagFrame] = asyncio.Queue()
-        self._read_queue: asyncio.Queue[DoIPFrame] = asyncio.Queue()
+        self._read_queue: asyncio.Queue[DoIPFrame | None] = asyncio.Queue()
         self._read_task = asyncio.create_task(self._read_worker())
         self._read_task.add_done_callback(
             handle_task_error,
@@ -576,7 +576,11 @@ class DoIPConnection:
         # the connection has been terminated.
         if self._is_closed:
             raise ConnectionError
-        return await self._read_queue.get()
+        frame = await self._read_queue.get()
+        if frame is None:
+            # close() woke us up: the connection is gone.
+            raise ConnectionError
+        return frame
 
     async def read_frame(self) -> DoIPFrame:
         async with self._mutex:
@@ -585,7 +589,7 @@ class DoIPConnection:
     def _requeue(self, frames: list[tuple[Any, Any]]) -> None:
         # Skipped frames are older than everything which arrived in the meantime;
         # hand them out first again, otherwise the order of the messages changes.
-        pending: list[tuple[Any, Any]] = []
+        pending: list[tuple[Any, Any] | None] = []
         while not self._read_queue.empty():
             pending.append(self._read_queue.get_nowait())
         for item in [*frames, *pending]:
@@ -753,6 +757,8 @@ class DoIPConnection:
             logger.debug("DoIP connection already closed!")
             return
         self._is_closed = True
+        # Wake up a consumer which waits for a frame in read_frame_unsafe().
+        self._read_queue.put_nowait(None)
         logger.debug("Cancelling read worker")
         self._read_task.cancel()
         self.writer.close()
